@@ -403,12 +403,12 @@ fn gen_frame(r: &mut Rng, enc: Enc, shape: FrameShape, code: u64, data: i64, foc
                 _ => 64,
             };
             let budget: u64 = if field_bits >= 64 { 1u64 << 40 } else { (1u64 << (field_bits - 1)) - 0x200 };
+            // and every address must fit the address size
+            let budget = budget.min((mask / 2).saturating_sub(0x800));
             // instructions first (their total advance decides the range)
             let mut ia = Asm::new(enc.le);
             let advanced;
             {
-                let code_f = if c == 0 { code } else { 1 };
-                let data_f = if c == 0 { data } else { -8 };
                 let mut g = Gen { r: &mut *r, enc, code: code_f, data: data_f, remembered: 0, used: vec![], hostile: hostile && f == 0, advanced: 0, budget };
                 let n = 2 + g.r.below(8);
                 let mut placed = focus.is_none();
